@@ -378,7 +378,7 @@ def check_case(case):
 
 
 @st.composite
-def cases(draw):
+def cases(draw, tier="quick"):
     stmts = []
     kinds = {}  # handle -> ("arr"|"view"|"tensor", length, is_float_tensor_nonconst)
     nh = [0]
@@ -396,7 +396,7 @@ def cases(draw):
     for _ in range(draw(st.integers(1, 2))):
         h = new("arr", N_LEN)
         stmts.append({"k": "arr", "h": h, "n": N_LEN, "ro": draw(st.integers(0, 5)) == 0, "off": draw(st.integers(1, 9)) / 4})
-    nsteps = draw(st.integers(3, 28))
+    nsteps = draw(st.integers(3, 28 if tier == "quick" else 45))
     for _ in range(nsteps):
         choice = draw(st.sampled_from(["arr", "npview", "tensor", "tensor", "op", "op", "op", "op", "op", "setitem", "fail",
                                        "backward", "clear", "drop", "drop"]))
@@ -520,7 +520,7 @@ def classify(case):
     return nontrivial, sorted(labels)
 
 
-N = {"quick": 500, "thorough": 8000}
+N = {"quick": 500, "thorough": 5000}
 
 
 def shard_plan(tier):
@@ -536,7 +536,7 @@ def run_shard(shard, seed, tier):
         rec.extra["steps"] = rec.extra.get("steps", 0) + len(case["stmts"])
         return check_case(case)
 
-    viol = drive(prop=PROPERTY, name="lock_history", strategy=cases(), check_case=cc, rec=rec, seed=seed,
+    viol = drive(prop=PROPERTY, name="lock_history", strategy=cases(tier), check_case=cc, rec=rec, seed=seed,
                  max_examples=N[tier])
     out = rec.result()
     out["violations"] = viol
